@@ -214,11 +214,11 @@ def step(cls, s, ref, op, checked=True):
             else:
                 try:
                     got = s.pop(last=last)
-                except KeyError:
+                except LookupError:      # KeyError today; which exception says "empty" is not part of the property
                     pass
                 else:
                     if checked:
-                        raise Failure('pop-returns-end', dict(returned=got, last=last, set='empty'), 'KeyError (nothing to pop)')
+                        raise Failure('pop-returns-end', dict(returned=got, last=last, set='empty'), 'an exception: there is nothing to pop')
         elif kind == 'clear':
             s.clear()
             del ref[:]
